@@ -105,6 +105,17 @@ func notNeeded(date string, todo work) bool {
 	return false
 }
 
+// addSaturating adds the counter value v to the report value sum. Counter
+// values are unsigned and stick at their maximum; report values are signed,
+// so a total beyond math.MaxInt64 is reported as math.MaxInt64 rather than
+// wrapping to a negative number.
+func addSaturating(sum int64, v uint64) int64 {
+	if v > math.MaxInt64 || sum > math.MaxInt64-int64(v) {
+		return math.MaxInt64
+	}
+	return sum + int64(v)
+}
+
 func (u *uploader) deleteFiles(files []string) {
 	for _, f := range files {
 		if err := os.Remove(f); err != nil {
@@ -161,10 +172,10 @@ func (u *uploader) createReport(start time.Time, expiryDate string, countFiles [
 		for k, v := range x.Count {
 			if counter.IsStackCounter(k) {
 				// stack
-				prog.Stacks[k] += int64(v)
+				prog.Stacks[k] = addSaturating(prog.Stacks[k], v)
 			} else {
 				// counter
-				prog.Counters[k] += int64(v)
+				prog.Counters[k] = addSaturating(prog.Counters[k], v)
 			}
 			succeeded = true
 			fok = true
